@@ -194,7 +194,10 @@ func (e *MetaCDC) ReloadTask() {
 		e.collectionNames.data[uKey] = append(e.collectionNames.data[uKey], newCollectionNames...)
 		e.collectionNames.excludeData[uKey] = append(e.collectionNames.excludeData[uKey], taskInfo.ExcludeCollections...)
 		e.collectionNames.excludeData[uKey] = lo.Uniq(e.collectionNames.excludeData[uKey])
-		e.collectionNames.extraInfos[uKey] = taskInfo.ExtraInfo
+		// the flag of a target is held as soon as one of its tasks holds it (same rule as in checkDuplicateCollection)
+		e.collectionNames.extraInfos[uKey] = model.ExtraInfo{
+			EnableUserRole: e.collectionNames.extraInfos[uKey].EnableUserRole || taskInfo.ExtraInfo.EnableUserRole,
+		}
 		e.cdcTasks.Lock()
 		e.cdcTasks.data[taskInfo.TaskID] = taskInfo
 		e.cdcTasks.Unlock()
